@@ -18,6 +18,22 @@ CHECKS = {
         "instances is not yet a theorem (named open obligation) and is carried by the correspondence: random and exhaustive small programs, each "
         "also under permutations of every conjunction, model vs implementation on canonical answers + constraint truth tables; a brute-force "
         "ground-solution oracle (independent Robinson unifier) checks both inclusions."),
+    "C05": dict(text="Full-strength theorems about the Lean model of the depth-first stream nodes (mplus_dfs, bind_dfs, lazy_bind_dfs, pause, delay, "
+        "StreamEngine::step, Solver::next) and of DFSConj/DFSDisj/Conde-in-DFS/relation calls, generic in the state type, for ALL goal trees and "
+        "ALL solver nesting levels: one step keeps the reference answer list exactly (C05_step); draining delivers it in order (C05_next); whenever "
+        "the textbook Prolog semantics evalRef terminates with xs the engine delivers exactly xs in that order, recursion through relations "
+        "included (C05_prolog); first-clause answers precede second-clause answers (C05_disj_order); conjunction is flat-map in order "
+        "(C05_conj_order). Tied to the code by running random and exhaustive small goal trees inside dfs{} on the real engine and in the model "
+        "(answer SEQUENCES diffed) with an independent recursive DFS interpreter as oracle. Known finding D18 (query-level reification can reorder "
+        "answers of a dfs block) is reported as KNOWN-FINDING; order inside the dfs block is checked in raw mode."),
+    "C06": dict(text="Full-strength theorems about the Lean model of the interleaving engine (Stream::mplus with its swap, bind, lazy_bind, pause, delay, "
+        "step, Solver::next), generic in the state type, for ALL streams/goals: a step keeps the finite answer list up to permutation "
+        "(C06_step_perm) and keeps membership in both directions for arbitrary infinite/diverging streams (C06_step_mem); a finite search is "
+        "drained in finitely many steps delivering a permutation of the reference list (C06_finite, cost-decrease argument, no fuel bound "
+        "assumed); same multiset as the textbook semantics evalRef and as depth-first search (C06_ref, C06_same_as_dfs); nothing delivered by "
+        "next on any stream is invented (C06_no_invention, C06_prefix_sound). Tied to the code by random search programs (incl. infinite "
+        "producers on bounded prefixes) run on the real engine and in the model with answer sequences diffed; oracle: reference interpreter "
+        "multiset, dfs{} run of the same program, membership of each delivered answer."),
     "C18": dict(text="Full-strength theorems (21, for all well-formed domains in both representations, all integers, all predicates): "
         "intersect/diff/is_disjoint/contains/min/max/is_singleton/singleton_value/iteration/==/copy_before/drop_before/From<Vec> of the Lean "
         "model of fd.rs equal the set operations, None exactly on empty results, results well-formed again. The model is tied to fd.rs by "
